@@ -459,7 +459,8 @@ class GaussianEuclideanMetricSystem(EuclideanMetricSystem):
 
     @cache_in_state("pos")
     def dh2_dpos(self, state: ChainState) -> ArrayLike:
-        return state.pos
+        # Return copy so cached value does not share memory with state variable
+        return np.array(state.pos)
 
     def dh_dpos(self, state: ChainState) -> ArrayLike:
         return self.dh1_dpos(state) + self.dh2_dpos(state)
